@@ -54,7 +54,8 @@ func runC15(c *Ctx) {
 	}
 	c.floor("C15.1", "os.Rename publish sites in internal/llmsetup", len(pubs), 1)
 
-	var tempNames []ssa.Value // resolved src values (temp file names)
+	stepHelpers := map[*ssa.Function]int{} // helper -> index of the parameter that is the temporary file
+	var tempNames []ssa.Value              // resolved src values (temp file names)
 	var targetDirs []ssa.Value
 	var tempFiles []ssa.Value
 
@@ -93,6 +94,7 @@ func runC15(c *Ctx) {
 		}
 		steps := []step{{"(*os.File).Write", true}, {"(*os.File).Sync", true}, {"(*os.File).Close", true}, {"os.Chmod", false}}
 		found := map[string]*ssa.Call{}
+		helperSteps := map[string]*ssa.Call{} // the step's own call inside a helper, when it lives there
 		for _, st := range steps {
 			var best *ssa.Call
 			var why string
@@ -113,6 +115,49 @@ func runC15(c *Ctx) {
 					break
 				}
 				why = w
+			}
+			// the step may live in a private helper that receives the temporary file: the helper performs it (checked, before
+			// each of its success returns) and the helper's own error is checked before the rename
+			if best == nil && st.onFile {
+				for _, hc := range callsIn(fn) {
+					h := hc.common.StaticCallee()
+					if h == nil || hc.value() == nil || len(h.Blocks) == 0 || h.Pkg != fn.Pkg || errorResultIndex(h) < 0 {
+						continue
+					}
+					pidx := -1
+					for i, a := range hc.common.Args {
+						if resolve(a) == tmpFile && i < len(h.Params) {
+							pidx = i
+						}
+					}
+					if pidx < 0 {
+						continue
+					}
+					for _, sc := range findCalls(h, st.callee) {
+						if sc.value() == nil || resolve(sc.arg(0)) != ssa.Value(h.Params[pidx]) {
+							continue
+						}
+						okAll := true
+						for _, r := range returnsOf(h) {
+							if returnsNilError(r) {
+								if ok, _ := checkedBefore(sc.value(), r); !ok {
+									okAll = false
+								}
+							}
+						}
+						if okR, _ := errorBranchReturnsNonNil(sc.value()); !okR {
+							okAll = false
+						}
+						if !okAll {
+							continue
+						}
+						if ok, w := checkedBefore(hc.value(), rn.instr); ok {
+							best, why = hc.value(), "through "+h.Name()+" (step checked before each of its success returns; "+w+")"
+							helperSteps[st.callee] = sc.value()
+							stepHelpers[h] = pidx
+						}
+					}
+				}
 			}
 			construct := fmt.Sprintf("%s:%s-before-Rename", name, st.callee)
 			if best == nil {
@@ -136,6 +181,9 @@ func runC15(c *Ctx) {
 			a, b := found[order[i]], found[order[i+1]]
 			if a == nil || b == nil {
 				continue
+			}
+			if a == b && helperSteps[order[i]] != nil && helperSteps[order[i+1]] != nil {
+				a, b = helperSteps[order[i]], helperSteps[order[i+1]] // both inside the same helper: order them there
 			}
 			c.check(instrDominates(a, b), "C15.1", fmt.Sprintf("%s:%s-before-%s", name, order[i], order[i+1]), L.pos(b.Pos()),
 				fmt.Sprintf("%s: %s precedes %s", name, order[i], order[i+1]), fmt.Sprintf("block %d dominates block %d", a.Block().Index, b.Block().Index))
@@ -230,6 +278,23 @@ func runC15(c *Ctx) {
 					for _, tf := range tempFiles {
 						if resolve(cs.arg(0)) == tf {
 							okFile = true
+						}
+					}
+					for _, w := range []*ssa.Function{f2, f2.Parent()} {
+						if w == nil {
+							continue
+						}
+						if pidx, isH := stepHelpers[w]; isH {
+							if p, isP := resolve(cs.arg(0)).(*ssa.Parameter); isP && pidx < len(w.Params) && p == w.Params[pidx] {
+								okFile = true // the helper's file parameter is the temporary file at every call site checked above
+							}
+							if fv, isFV := cs.arg(0).(*ssa.FreeVar); isFV {
+								if b := freeVarBinding(fv); b != nil {
+									if p, isP := resolve(b).(*ssa.Parameter); isP && p == w.Params[pidx] {
+										okFile = true
+									}
+								}
+							}
 						}
 					}
 					c.check(okFile, "C15.3", fnName(f2)+":"+cs.callee, L.pos(cs.instr.Pos()), fnName(f2)+": "+cs.callee+" writes only to the temporary file", "receiver is "+describe(cs.arg(0)))
